@@ -345,6 +345,13 @@ def check_C16(tier, seed, replay=None):
                             [("hints", "", 30000), ("hints", "range", 10000), ("hints", "func", 10000), ("hints", "deep", 10000)], corr=corr)
 
 
+def check_C09(tier, seed, replay=None):
+    corr = _corr_generic("optcases", "C09", "Opt.opt_sort / opt_merge / opt_propagate vs the ASTs produced by the real optimizers "
+                         "(each alone and the default list), compared up to matcher order", 120, 1200)
+    return ref_family_check("C09", tier, seed, [("opt", "pairs", 4000), ("opt", "", 1200), ("opt", "bin", 800)],
+                            [("opt", "pairs", 150000), ("opt", "", 20000), ("opt", "bin", 20000), ("opt", "deep", 10000)], corr=corr)
+
+
 def check_C07(tier, seed, replay=None):
     return ref_family_check("C07", tier, seed,
                             [("instants", "nostartend", 1500), ("instants", "range", 400)],
@@ -363,4 +370,4 @@ def check_C19(tier, seed, replay=None):
                             [("wf", "", 60000), ("wf", "bin", 30000), ("wf", "func", 20000), ("wf", "deep", 20000)])
 
 
-CHECKS = {"C08": check_C08, "C02": check_C02, "C03": check_C03, "C07": check_C07, "C11": check_C11, "C19": check_C19, "C16": check_C16}
+CHECKS = {"C08": check_C08, "C02": check_C02, "C03": check_C03, "C07": check_C07, "C11": check_C11, "C19": check_C19, "C16": check_C16, "C09": check_C09}
